@@ -117,6 +117,22 @@ partial def parseGoData (j : Json) : R GoData := do
       match newFrom o d with
       | .ok t => pure (.cfg t)
       | _ => throw "embedded config source does not normalize"
+    else if let some v := optField j "cm" then
+      let oa ← parseOpts ((optField v "optsA").getD (.arr #[]))
+      let a ← parseGoData ((optField v "a").getD .null)
+      match newFrom oa a with
+      | .ok t0 =>
+        let steps := match optField v "steps" with
+          | some (.arr s) => s.toList
+          | _ => []
+        let t ← steps.foldlM (fun (t : Val) (st : Json) => do
+          let o ← parseOpts ((optField st "opts").getD (.arr #[]))
+          let b ← parseGoData ((optField st "b").getD .null)
+          match cfgMerge o t b with
+          | .ok t' => pure t'
+          | _ => throw "merged config source: merge failed") t0
+        pure (.cfg t)
+      | _ => throw "merged config source does not normalize"
     else if (optField j "unsup").isSome then pure .unsupported
     else if (optField j "badkey").isSome then pure .badKeyMap
     else throw s!"bad godata {j.compress}"
